@@ -2,6 +2,7 @@ import TrucModel.Proofs.Memory
 import TrucModel.Proofs.Refine
 import TrucModel.Proofs.EndToEnd
 import TrucModel.Generated.Primitives
+import TrucModel.Proofs.MachineWFProps
 /-
   C04 — A record gives back exactly the field values that were put into it.
   (1) obligation on the *translated* primitives: every store and every `&mut` goes through a pointer
@@ -16,6 +17,15 @@ open Truc.Gen Truc.Generated
 theorem C04_store_permission :
     primWrite.mutRecv = true ∧ primWrite.ptr = .asMutPtr ∧ primGetMut.mutRecv = true ∧ primGetMut.ptr = .asMutPtr ∧
     primWrite.addsOffset = true ∧ primGetMut.addsOffset = true ∧ primRead.addsOffset = true ∧ primGet.addsOffset = true := by
+  decide
+
+/-- … and each of the four primitives is *recognised* by the translator as one plain access of its kind (a store that
+    stores the whole value, a load, a shared and a mutable reference): a body that copies the value piecewise, conditionally
+    or through anything else the translator does not know leaves this obligation unprovable, whatever it computes -/
+theorem C04_primitives_are_plain_accesses :
+    (primWrite.access = .ptrWriteUnaligned ∨ primWrite.access = .ptrWrite) ∧
+    (primRead.access = .ptrRead ∨ primRead.access = .ptrReadUnaligned) ∧
+    primGet.access = .refShared ∧ primGetMut.access = .refMut := by
   decide
 
 /-- what was stored is what is loaded (the store itself succeeds when the target is inside the
@@ -118,6 +128,18 @@ theorem C04_premises_hold_for_builder_output (dr : String → Bool) (reqs : List
   · intro v hvm; rw [hd] at hvm ⊢; exact hinv.2.variants v hvm
   · intro v hvm id hid
     exact Nat.le_trans (maxSize_ge hms hvm hid) hcap
+
+/-- … hence the executable premise check the driver evaluates on every compiled module (`xmod` answers `wf=…`, decided to be
+    `ModuleWF` by `C07_premise_check_decides`) must answer `true` on every such definition: the count of modules on which it does is
+    in the evidence (`modules_meeting_theorem_hypotheses`); modules with a field called `record` are the ones it refuses -/
+theorem C04_premise_check_accepts_builder_output (dr : String → Bool) (reqs : List Req) (hv : ∀ r ∈ reqs, r.valid)
+    (d : Definition) (hb : (Truc.run reqs).build = some d) (ms cap : Nat) (hms : d.maxSize = some ms) (hcap : ms ≤ cap)
+    (hzk : ∀ v ∈ d.variants, ∀ a ∈ v, ∀ b ∈ v, a ≠ b → sz d.defs a = 0 → sz d.defs b = 0 → off d.defs a = off d.defs b →
+      minTok (info d.defs a).ty ≠ minTok (info d.defs b).ty)
+    (hnr : ∀ i ∈ d.defs, i.name ≠ "record") (hpod : ∀ i ∈ d.defs, i.uninit = true → dr (minTok i.ty) = false)
+    (hzd : ∀ i ∈ d.defs, i.size = 0 → dr (minTok i.ty) = true) :
+    moduleWFB dr cap (specs d) = true :=
+  (moduleWFB_iff dr cap (specs d)).2 (C04_premises_hold_for_builder_output dr reqs hv d hb ms cap hms hcap hzk hnr hpod hzd)
 
 /-- non-vacuity: two adjacent fields, one odd-sized -/
 example : (match (do
